@@ -172,9 +172,11 @@ func (c *Ctx) collectFns() {
 					switch x := (*op).(type) {
 					case *ssa.Function:
 						gAddrTaken[x] = true
+						gAddrTaken[unwrap(x)] = true // method values / expressions go through $bound / $thunk wrappers
 					case *ssa.MakeClosure:
 						if fn, ok := x.Fn.(*ssa.Function); ok {
 							gAddrTaken[fn] = true
+							gAddrTaken[unwrap(fn)] = true
 						}
 					}
 				}
